@@ -168,7 +168,7 @@ def gen_group(tier, seed, k):
     if small:
         # small groups are (also) solved by the rational simplex itself, with and without scaling: its reported value comes from
         # other code than the exact driver's (dual objective bookkeeping, fixed and boxed columns)
-        m0 = gen_lp.planted_optimal(rnd, rnd.randint(4, 18), rnd.randint(4, 22), "int")
+        m0 = gen_lp.boxed(rnd) if rnd.random() < 0.4 else gen_lp.planted_optimal(rnd, rnd.randint(4, 18), rnd.randint(4, 22), "int")
         for c in m0.cols:
             c.name = None
         for r in m0.rows:
